@@ -22,7 +22,8 @@
 (*          evaluating that sub-operator alone with derivatives; ref = the *)
 (*          stored values (for a leaf) / the direct evaluation on them     *)
 (* Clauses of the property: Evaluates, ValueAgrees, JacobianAgrees,        *)
-(* ValueOnlyAgrees, PrevTimeNoDerivative.  TreeConforms compares the built *)
+(* ValueOnlyAgrees, PrevTimeNoDerivative, AfterSetValueAgrees (the same      *)
+(* tree after Scalar.set_value).  TreeConforms compares the built          *)
 (* tree with Build (mechanism: reported as drift).  OracleSane guards the  *)
 (* harness (the oracle must have the kind the typing rules predict).       *)
 (* Tolerance policy (DESIGN 8): deviation <= 1e-9 passes, > 1e-6 fails,    *)
@@ -76,6 +77,9 @@ PrevTimeNoDerivativeP == C.berr = "" =>
        /\ p.jnnz = 0                                                    \* contributes no derivative
        /\ p.finite => IF p.exact THEN p.val = p.ref ELSE Close(p.q)     \* evaluates to the stored values
 TreeConformsP == C.berr = "" => TreeEq(C.built, Build(E))
+\* again = [done, err, qv, qj]: the built operator, multiplied by a new Scalar(2), evaluated once more after
+\* Scalar.set_value(3) on the catalogue leaf S (whose value was 2), against 2 * (direct evaluation with S = 3)
+AfterSetValueAgreesP == C.again.done => (C.again.err = "" /\ Close(C.again.qv) /\ Close(C.again.qj))
 
 OracleSane == Check("OracleSane", OracleSaneP(K, N))
 Evaluates == Check("Evaluates", EvaluatesP)
@@ -102,6 +106,7 @@ Verdict == (~Judging) \/
      /\ Check("ValueOnlyAgrees", ValueOnlyAgreesP(k, n))
      /\ Check("PrevTimeNoDerivative", PrevTimeNoDerivativeP)
      /\ Check("TreeConforms", TreeConformsP)
+     /\ Check("AfterSetValueAgrees", AfterSetValueAgreesP)
      /\ Band
 
 =============================================================================
